@@ -461,9 +461,18 @@ def rand_trans(rng, dated=None, sd=None):
     if sd is True or (sd is None and rng.random() < 0.5):
         tf_sd = rand_sd(rng, d != 0)
     rot = lambda: round(rng.uniform(-59.9, 59.9), rng.choice([2, 4, 7])) if rng.random() < 0.8 else rng.uniform(-59.9, 59.9)
-    return K.Transformation('A', 'B', d, rng.uniform(-1000, 1000), rng.uniform(-1000, 1000), rng.uniform(-1000, 1000),
-                            rng.uniform(-100, 100), rot(), rot(), rot(),
-                            rate(0.01), rate(0.01), rate(0.01), rate(0.001), rate(0.01), rate(0.01), rate(0.01), tf_sd)
+    vals = [rng.uniform(-1000, 1000), rng.uniform(-1000, 1000), rng.uniform(-1000, 1000), rng.uniform(-100, 100),
+            rot(), rot(), rot(), rate(0.01), rate(0.01), rate(0.01), rate(0.001), rate(0.01), rate(0.01), rate(0.01)]
+    if rng.random() < 0.25:
+        # parameters written as Python ints (the shipped plate-motion sets write their zeros that way; a user-made set
+        # may write any whole number so): translations, scale, whole-arc-second rotations, whole translation/scale rates
+        for i in range(7):
+            if rng.random() < 0.5:
+                vals[i] = int(round(vals[i])) if i < 4 else max(-59, min(59, int(round(vals[i]))))
+        for i in range(7, 14):
+            if rng.random() < 0.5:
+                vals[i] = (rng.choice([0, 0, 1, -1]) if (d != 0 and i < 11) else 0)
+    return K.Transformation('A', 'B', d, *vals, tf_sd)
 
 
 def rand_xyz(rng, mag=5e7):
